@@ -41,13 +41,13 @@ package basestore
 // Never panics; every head handed to the replicator is defined, complete, permitted by the access
 // controller, and re-encodes to its claimed hash; a hash mismatch returns an error and starts nothing.
 //@ func (*BaseStore).Sync
-//@   props C12 C04 C03 C10
+//@   props C12 C04 C03 C10 C19
 //@   safety C12
 //@   flag nilcalls
 //@   requires wf(b) && b.options.IO != nil
 //@   loop 1 invariant len(verified) <= $i
 //@   loop 1 invariant @C12 forall j Int :: 0 <= j && j < len(verified) ==> verified[j] != nil && ref(verified[j]) != 0
-//@   loop 1 invariant @C03 @C04 @C10 forall j Int :: 0 <= j && j < len(verified) ==> canAppendOK(b.access, verified[j]) && cidStr(contentHash(verified[j])) == hs(verified[j])
+//@   loop 1 invariant @C03 @C04 @C10 @C19 forall j Int :: 0 <= j && j < len(verified) ==> canAppendOK(b.access, verified[j]) && cidStr(contentHash(verified[j])) == hs(verified[j])
 //@   loop 1 invariant forall j Int :: 0 <= j && j < len(verified) ==> (exists k Int :: 0 <= k && k < $i && heads[k] == verified[j])
 //@   ensures @C04 @C10 result != nil ==> spawned_Load == 0
 //@   ensures spawned_Load <= 1
@@ -115,7 +115,7 @@ package basestore
 // are joined (C04); nothing already merged is ever removed (C08); the replicated event is emitted at most
 // once, and only after the view was re-derived and the merged heads were persisted (C01 C05 C16).
 //@ func (*BaseStore).replicationLoadComplete
-//@   props C01 C04 C05 C06 C07 C08 C10 C16 C19
+//@   props C01 C04 C05 C06 C07 C08 C10 C12 C16 C19
 //@   safety C10 C16
 //@   flag nilcalls
 //@   requires wf(b) && b.emitters.evtReplicated != nil
@@ -138,7 +138,7 @@ package basestore
 //@   assert @ before call b.emitters.evtReplicated.Emit#1: @C16 forall j Int :: 0 <= j && j < len(entries) ==> ents(L)[entries[j]]
 //@   assert @ before call b.emitters.evtReplicated.Emit#1: @C01 @C06 @C07 @C16 synced(b)
 //@   assert @ before call b.emitters.evtReplicated.Emit#1: @C05 @C01 dsHas(C)[RH] && len(headsDec(dsMap(C)[RH])) == len(headsOf(L)) && (forall j Int :: 0 <= j && j < len(headsOf(L)) ==> hs(headsDec(dsMap(C)[RH])[j]) == hs(headsOf(L)[j]))
-//@   ensures @C10 joinCalls(L) == J0 + len(logs)
+//@   ensures @C10 @C12 joinCalls(L) == J0 + len(logs)
 //@   ensures @C08 @C04 @C10 forall x Iface :: old(ents(L)[x]) ==> ents(L)[x]
 //@   ensures @C16 evCount(R) == N0 || evCount(R) == N0 + 1
 //@   ensures @C16 @C05 @C01 evCount(R) == N0 + 1 ==> synced(b) && dsHas(C)[RH]
